@@ -77,6 +77,20 @@ CLAIMED["C36"] = (
     "DESIGN.md section 6 C36",
 )
 
+CLAIMED["C40"] = (
+    "SecondOrderTensor / FourthOrderTensor constructors, rotate, restrict_to_cells and copy are executed on "
+    "symbolic cell-wise parameters. z3 decides: symmetry and entry placement; admissibility (the constructor "
+    "raises exactly when a leading minor is negative - its own tests fork the paths); rotate = R K R^T with "
+    "trace, second invariant and determinant unchanged, for symbolic planar rotations (c,s with c^2+s^2=1) "
+    "about each axis and exact rational 3-D rotations; the Lame form C_ijkl of the fourth-order tensor; "
+    "restriction picks the requested cells of values and parameter fields; copies and originals stay "
+    "independent when the other is overwritten with fresh symbols.",
+    "Floats as exact reals; 2 cells (3 for restriction); rotation matrices exactly orthogonal; eigenvalue "
+    "preservation is checked through the three invariants of the characteristic polynomial.",
+    "symbolic execution of the tensor classes on z3 terms + SMT (nonlinear real arithmetic)",
+    "DESIGN.md section 6 C40",
+)
+
 NOT_APPLICABLE = {
     "C11": "MPFA local systems are inverted in LAPACK/numba kernels on data-dependent block structures; a symbolic inverse of the interaction-region blocks is beyond z3/cvc5 and with concrete matrices nothing quantified remains for a solver.",
     "C13": "MPSA: same obstacle as C11 with 2-3x larger local systems.",
